@@ -120,12 +120,21 @@ class Optional(Box):
         return True
 
     def optimized(self) -> Self | Model:
-        from .closure import Closure, Gather, Join
+        from .closure import (
+            Closure,
+            Gather,
+            Join,
+            PositiveClosure,
+            PositiveGather,
+            PositiveJoin,
+        )
 
         exp = self.exp.optimized()
+        # NOTE: left and right joins are positive joins whatever their names say
+        positive = PositiveClosure | PositiveJoin | PositiveGather
         if isinstance(
             exp, Optional | Closure | Join | Gather
-        ) and 'Positive' not in typename(exp):
+        ) and not isinstance(exp, positive):
             return exp
         new = copy(self)
         new.exp = exp
